@@ -259,8 +259,27 @@ def _singular_elsewhere(ctx, rng, case, x):
                        'case': case.describe()})
 
 
+def _jitter_times(ctx, case, idx):
+    """time stamps that went through arithmetic (0.1 + 0.2 next to 0.3):
+    some times are moved up by one unit in the last place, so that grids of
+    different outputs (or ties within one) hold values that are nearly but
+    not exactly equal; each measurement still belongs to its own time"""
+    r = np.random.default_rng([idx, 77])
+    moved = 0
+    for t in case.times:
+        for i in range(len(t)):
+            up = np.nextafter(t[i], np.inf)
+            if (i == len(t) - 1 or t[i + 1] >= up) and r.random() < 0.5:
+                t[i] = up
+                moved += 1
+    if moved:
+        ctx.count('cases_with_times_one_ulp_apart')
+
+
 def toy_case(ctx, rng, idx):
     case = G.LLCase(rng)
+    if idx % 6 == 5:
+        _jitter_times(ctx, case, idx)
     ctx.case(case.signature(), case.nontrivial(), sample=case.describe())
     try:
         ll = case.build()
